@@ -84,6 +84,14 @@ Step ==
             /\ fail /\ pos > 0                         \* only a partial message in the sink poisons
             /\ poisoned' = TRUE
             /\ UNCHANGED <<ws, we, msg, pos, fail, flushed, retries>>
+       [] ev.t = "hook" /\ e.ev = "skip" ->
+            \* a sender may drop accepted bytes from its window as it goes (instead of keeping a position): never more
+            \* than the sink has accepted; what is offered to the sink is checked at every write regardless
+            /\ ~poisoned /\ msg # <<>>
+            /\ ws + e.n <= we /\ ws + e.n <= pos
+            /\ \/ e.ws = ws + e.n /\ e.we = we /\ ws' = e.ws /\ we' = e.we
+               \/ ws + e.n = we /\ e.ws = 0 /\ e.we = 0 /\ ws' = 0 /\ we' = 0
+            /\ UNCHANGED <<msg, pos, fail, flushed, retries, poisoned>>
        [] ev.t = "hook" /\ e.ev = "clear" ->
             /\ ~fail /\ ~poisoned /\ pos = Len(msg) /\ msg # <<>>
             /\ (Run.mode = 1 => flushed)               \* the async sender flushes before it releases the buffer
